@@ -376,6 +376,16 @@ class Interp:
             if ni.get("kind") != "bool":
                 raise Unsupported("null_included operand")
             return {"kind": "range", "start": fields["start"], "end": fields["end"], "null_included": ni["v"]}
+        if rhs in ("FieldValue::Null", "ir::value::FieldValue::Null"):
+            return FV(True, "0")
+        m = re.match(r"^(?:ir::value::)?FieldValue::(Int64|Uint64)\((.+)\)$", rhs)
+        if m:
+            v = self.operand(fr, m.group(2))
+            if v.get("kind") == "int":
+                return FV(False, str(v["v"]) if v["v"] >= 0 else f"(- {-v['v']})")
+            if v.get("kind") == "sint":
+                return FV(False, v["t"])
+            raise Unsupported("FieldValue integer constructor operand")
         m = re.match(r"^Not\((.+)\)$", rhs)
         if m:
             v = self.operand(fr, m.group(1))
@@ -728,6 +738,10 @@ def main():
         solver_s += s1 + s2 + s3
         q = {"id": oid, "z3": r1, "cvc5": r2, "premise_satisfiable": rv, "z3_s": round(s1, 3), "cvc5_s": round(s2, 3), "closure": meta["closure"]}
         queries.append(q)
+        if rv == "unsat" and meta["shape"] == "list0" and meta["tag"] == "some":
+            # nothing is `one_of` an empty list: the premise is legitimately unsatisfiable, the obligation holds trivially
+            notes.append(f"{oid}: no value passes `one_of []`; holds trivially")
+            continue
         if rv != "sat":
             inconclusive.append(f"{oid}: premise unsatisfiable or undecided ({rv}) - vacuous")
             continue
@@ -820,9 +834,22 @@ def main():
             else:
                 inconclusive.append(f"{oid}: outside the known failing region the solvers are undecided (z3={ra}, cvc5={rb})")
                 continue
-        if meta["fn"] != "compute_candidate_from_operation":
-            inconclusive.append(f"{oid}: solver found a counterexample (p={vals.get('pv')}, tag={vals.get('av')}) but this constructor has no native entry point to replay it against")
-            continue
+        native_op = op
+        if meta["fn"] == "resolve_fold_specific_field":
+            # replayed through the hook verif_hints::fold_specific_candidate, which builds a context whose fold has
+            # `tag` elements: the tag of this constructor is a fold count, so ask for a model with a small count
+            native_op = "F:" + op
+            if meta["shape"] != "scalar":
+                inconclusive.append(f"{oid}: solver found a counterexample but a fold count cannot be a list; not replayable")
+                continue
+            if meta["tag"] == "some":
+                small = meta["smt"].replace("(check-sat)", "(assert (and (not an) (>= av 0) (<= av 64)))\n(check-sat)")
+                rs, outs, ss = solve(small, "z3")
+                solver_s += ss
+                if rs != "sat":
+                    inconclusive.append(f"{oid}: solver found a counterexample (p={vals.get('pv')}, tag={vals.get('av')}) but none whose tag is a fold count in 0..=64; not replayable natively")
+                    continue
+                vals = model_values(outs)
         if meta["shape"] == "scalar":
             tag = None if vals.get("an") and op not in ORDERING else vals.get("av", 0)
         else:
@@ -832,14 +859,14 @@ def main():
             tag = "x"         # the tag's @optional scope does not exist: every value passes
         pval = None if vals.get("pn") else vals.get("pv", 0)
         try:
-            (pass_real, mem_real), = native([(op, tag, pval)])
+            (pass_real, mem_real), = native([(native_op, tag, pval)])
         except Unsupported as e:
             inconclusive.append(f"{oid}: replay failed to run: {e}")
             continue
         if meta.get("panic") and pass_real and mem_real == "panic":
             os.makedirs(f"{VERIF}/replay", exist_ok=True)
             path = f"{VERIF}/replay/C04-{meta['fn']}-{op}-{meta['tag']}-panic.txt"
-            open(path, "w").write(f"{op}|{enc(tag)}|{enc(pval)}\n# replay: python3 /verif/c04_mir.py --replay {path}\n# the engine lets property value {pval} through `{op}` against tag value {tag} ('x' = tag from a non-existent optional scope), but computing the dynamic hint candidate panics\n")
+            open(path, "w").write(f"{native_op}|{enc(tag)}|{enc(pval)}\n# replay: python3 /verif/c04_mir.py --replay {path}\n# the engine lets property value {pval} through `{op}` against tag value {tag} ('x' = tag from a non-existent optional scope), but computing the dynamic hint candidate panics\n")
             print(f"VIOLATION property=C04 replay={path}")
             print(f"  {meta['fn']}: computing the hint for `{op}` panics although the filter passes: property value {pval}, tag value {tag}")
             reported += 1
@@ -847,7 +874,7 @@ def main():
         if pass_real and mem_real is False:
             os.makedirs(f"{VERIF}/replay", exist_ok=True)
             path = f"{VERIF}/replay/C04-{meta['fn']}-{op}-{meta['tag']}.txt"
-            open(path, "w").write(f"{op}|{enc(tag)}|{enc(pval)}\n# replay: python3 /verif/c04_mir.py --replay {path}\n# the real filter `{op}` passes for property value {pval} against tag value {tag}, but the dynamic hint candidate computed by {meta['fn']} does not contain it\n")
+            open(path, "w").write(f"{native_op}|{enc(tag)}|{enc(pval)}\n# replay: python3 /verif/c04_mir.py --replay {path}\n# the real filter `{op}` passes for property value {pval} against tag value {tag}, but the dynamic hint candidate computed by {meta['fn']} does not contain it\n")
             print(f"VIOLATION property=C04 replay={path}")
             print(f"  {desc}: property value {pval}, tag value {tag}")
             reported += 1
